@@ -151,3 +151,53 @@ func TestC12ChunkWithEmptySignatureIsRefused(t *testing.T) {
 		t.Fatalf("a data chunk with an empty chunk-signature was accepted: decoded %q", got)
 	}
 }
+
+// endless is a stream of one repeated byte that counts what was taken from it
+type endless struct {
+	b     byte
+	taken int
+}
+
+func (e *endless) Read(p []byte) (int, error) {
+	for i := range p {
+		p[i] = e.b
+	}
+	e.taken += len(p)
+	return len(p), nil
+}
+
+// C20: framing lines of an unsigned aws-chunked stream are bounded. A size line (or a trailer line) that never ends was
+// buffered for as long as the client kept sending: memory without bound, before anything of the request is verified.
+func TestC20UnsignedFramingLinesAreBounded(t *testing.T) {
+	src := &endless{b: '1'}
+	r, err := NewUnsignedChunkReader(src, checksumTypeCrc32, false)
+	if err != nil {
+		t.Fatal(err)
+	}
+	done := make(chan error, 1)
+	go func() { _, err := r.Read(make([]byte, 64)); done <- err }()
+	select {
+	case err := <-done:
+		if err == nil {
+			t.Errorf("a size line without end was accepted")
+		}
+		if src.taken > 1<<20 {
+			t.Errorf("%d bytes of a size line were buffered before it was refused", src.taken)
+		}
+	case <-time.After(2 * time.Second):
+		t.Errorf("the reader is still buffering a size line after %d bytes", src.taken)
+	}
+	// the same for the trailer line
+	tr := io.MultiReader(bytes.NewReader([]byte("0\r\n")), &endless{b: 'x'})
+	r, _ = NewUnsignedChunkReader(tr, checksumTypeCrc32, false)
+	done = make(chan error, 1)
+	go func() { _, err := r.Read(make([]byte, 64)); done <- err }()
+	select {
+	case err := <-done:
+		if err == nil {
+			t.Errorf("a trailer line without end was accepted")
+		}
+	case <-time.After(2 * time.Second):
+		t.Errorf("the reader is still buffering a trailer line after 2 s")
+	}
+}
